@@ -144,7 +144,17 @@ func genC09World(r *lib.Rng) *c09World {
 	// by walking a map of locals: which pair is named, and where, must not depend on the iteration order
 	if r.Chance(1, 2) {
 		w.files["luahelper.json"] = "{\"ShowWarnFlag\":1}"
+		if r.Chance(1, 2) {
+			// two per-file rules that both match ign/a.lua and list different types: the rules are kept in a map, what
+			// they suppress must not depend on which one is met first
+			w.files["luahelper.json"] = "{\"ShowWarnFlag\":1,\"IgnoreFileErrTypes\":[{\"File\":\"ign/\",\"Types\":[4]},{\"File\":\"a.lua\",\"Types\":[7]},{\"File\":\"gn/a\",\"Types\":[2]}]}"
+		}
 	}
+	// unused locals in scopes that also declare '_' (the scope's locals are walked as a map), in a file that several
+	// per-file ignore rules match and in one that none matches
+	unusedSrc := "local function fu(t)\n  local _, ua = next(t)\n  local ub = 1\n  local uc = 2\n  local ud, ue = 3, 4, 5\n  for _, uf in pairs(t) do local ug = undefinedU end\nend\nfu({})\n"
+	w.files["ign/a.lua"] = unusedSrc
+	w.files["unused.lua"] = unusedSrc
 	w.files["enum.lua"] = "---@enum start\nlocal RED = 1\nlocal GREEN = 2\nlocal BLUE = 1\nlocal PINK = 1\nlocal GREY = 2\n---@enum end\nprint(RED, GREEN, BLUE, PINK, GREY)\n" +
 		"---@enum start\nKIND = {\n  A = 1,\n  B = 2,\n  C = 1,\n  D = 2,\n  E = 1,\n}\n---@enum end\n"
 	return w
